@@ -548,3 +548,97 @@ Proof.
     destruct Ht as [Ht _]. discriminate.
 Qed.
 
+(* ---------- oracle soundness / completeness ---------- *)
+
+Lemma eqb_listN_eq : forall a b, eqb_listN a b = true <-> a = b.
+Proof.
+  induction a as [|x a IH]; destruct b as [|y b]; simpl; split; intro H;
+    try reflexivity; try discriminate.
+  - apply andb_prop in H; destruct H as [H1 H2]. apply N.eqb_eq in H1. apply IH in H2. congruence.
+  - inversion H; subst. rewrite N.eqb_refl. apply IH; reflexivity.
+Qed.
+
+Lemma usual_effects_l_iff : forall cid code chn e,
+  In e (usual_effects_l cid code chn) <-> usual_effect cid code chn e.
+Proof.
+  intros; unfold usual_effects_l; split.
+  - destruct (ch_joinleave chn) eqn:J, (ch_presence chn) eqn:P; simpl;
+      intuition (subst; try (constructor; assumption)).
+  - intro H; destruct H as [| |H|H]; rewrite ?H;
+      destruct (ch_joinleave chn), (ch_presence chn); simpl; auto 10.
+Qed.
+
+Lemma conns_ok_spec : forall t s o,
+  conns_ok t s o = true <->
+  (map oc_id o = map cn_id s /\
+   forall c oc, In (c, oc) (combine s o) -> conn_ok t c oc = true).
+Proof.
+  induction s as [|c s IH]; destruct o as [|oc o]; simpl; split; intro H;
+    try discriminate; try (destruct H; discriminate).
+  - split; [reflexivity|intros ? ? []].
+  - reflexivity.
+  - apply andb_prop in H; destruct H as [H H3]. apply andb_prop in H; destruct H as [H1 H2].
+    apply N.eqb_eq in H1. apply IH in H3. destruct H3 as [H3 H4]. split; [congruence|].
+    intros c0 oc0 [E|Hin]; [inversion E; subst; assumption|apply H4; assumption].
+  - destruct H as [H1 H2]. inversion H1 as [[Hh Ht]].
+    rewrite Hh, N.eqb_refl, (H2 c oc (or_introl eq_refl)). simpl.
+    apply IH. split; [assumption|]. intros; apply H2; right; assumption.
+Qed.
+
+Theorem spec_b_sound : forall t code s o evs,
+  unsub_all_spec_b t code s o evs = true -> UnsubAllSpec t code s o evs.
+Proof.
+  intros t code s o evs H. unfold unsub_all_spec_b in H.
+  apply andb_prop in H; destruct H as [H H3]. apply andb_prop in H; destruct H as [H1 H2].
+  apply conns_ok_spec in H1. destruct H1 as [Hids Hc].
+  unfold effects_ok in H2. rewrite forallb_forall in H2.
+  constructor.
+  - assumption.
+  - intros c oc Hin Ht. specialize (Hc c oc Hin). unfold conn_ok in Hc. rewrite Ht in Hc.
+    destruct (oc_chans oc), (oc_hub oc); try discriminate; split; reflexivity.
+  - intros c oc Hin Ht. specialize (Hc c oc Hin). unfold conn_ok in Hc. rewrite Ht in Hc.
+    apply andb_prop in Hc; destruct Hc as [A B]. apply eqb_listN_eq in A, B. split; assumption.
+  - intros c chn e Hin Ht Hch Hu. specialize (H2 c Hin). rewrite Ht in H2.
+    apply andb_prop in H2. destruct H2 as [H2 _].
+    rewrite forallb_forall in H2. specialize (H2 chn Hch).
+    rewrite forallb_forall in H2. apply usual_effects_l_iff in Hu. specialize (H2 e Hu).
+    apply Nat.eqb_eq in H2. assumption.
+  - intros c chn Hin Ht Hch. specialize (H2 c Hin). rewrite Ht in H2.
+    apply andb_prop in H2. destruct H2 as [_ H2].
+    rewrite forallb_forall in H2. specialize (H2 chn Hch). apply Nat.leb_le in H2. assumption.
+  - intros e He. unfold only_ok in H3. rewrite forallb_forall in H3. specialize (H3 e He).
+    apply existsb_exists in H3. destruct H3 as [c [Hcin H3]].
+    apply andb_prop in H3; destruct H3 as [Ht H3].
+    apply orb_prop in H3. destruct H3 as [H3|H3].
+    + apply existsb_exists in H3. destruct H3 as [chn [Hchn H3]].
+      apply existsb_exists in H3. destruct H3 as [e' [He' Heq]].
+      apply ev_eqb_eq in Heq; subst e'. exists c, chn. repeat split; try assumption.
+      left. split; [assumption|apply usual_effects_l_iff; assumption].
+    + apply existsb_exists in H3. destruct H3 as [chn [Hchn Heq]].
+      apply ev_eqb_eq in Heq. exists c, chn. repeat split; try assumption. right. auto.
+Qed.
+
+Theorem spec_b_complete : forall t code s o evs,
+  UnsubAllSpec t code s o evs -> unsub_all_spec_b t code s o evs = true.
+Proof.
+  intros t code s o evs [Hids Ht Hf He Hcn Ho]. unfold unsub_all_spec_b.
+  apply andb_true_intro; split; [apply andb_true_intro; split|].
+  - apply conns_ok_spec. split; [assumption|]. intros c oc Hin. unfold conn_ok.
+    destruct (targeted t c) eqn:E.
+    + destruct (Ht c oc Hin E) as [-> ->]. reflexivity.
+    + destruct (Hf c oc Hin E) as [-> ->].
+      assert (R : eqb_listN (names (resolve c)) (names (resolve c)) = true) by (apply eqb_listN_eq; reflexivity).
+      rewrite R. reflexivity.
+  - unfold effects_ok. apply forallb_forall. intros c Hc. destruct (targeted t c) eqn:E; [|reflexivity].
+    apply andb_true_intro; split.
+    + apply forallb_forall. intros chn Hchn. apply forallb_forall. intros e Hin.
+      apply Nat.eqb_eq. apply (He c chn e Hc E Hchn). apply usual_effects_l_iff; assumption.
+    + apply forallb_forall. intros chn Hchn. apply Nat.leb_le. apply (Hcn c chn Hc E Hchn).
+  - unfold only_ok. apply forallb_forall. intros e Hin.
+    destruct (Ho e Hin) as [c [chn [Hc [E [[Hchn Hu]|[Hchn Heq]]]]]];
+      apply existsb_exists; exists c; (split; [assumption|]); rewrite E; cbn [andb];
+      apply orb_true_intro.
+    + left. apply existsb_exists. exists chn. split; [assumption|].
+      apply existsb_exists. exists e. split; [apply usual_effects_l_iff; assumption|apply ev_eqb_refl].
+    + right. apply existsb_exists. exists chn. split; [assumption|]. subst e. apply ev_eqb_refl.
+Qed.
